@@ -34,3 +34,5 @@ from . import base_metric       # noqa
 from . import c01_lemmas        # noqa
 from . import c04_classifiers   # noqa
 from . import base_fit          # noqa
+from . import util_init         # noqa
+from . import fits              # noqa
